@@ -456,11 +456,70 @@ def rule_name_comparison(prog, fixture=False):
     return r
 
 
+# ---------------------------------------------------------------- R-C15-4
+def rule_selector_assignment(prog, fixture=False):
+    r = RuleResult("R-C15-4", "a user-written copy assignment of a drive/volume selector class replaces every data "
+                   "member by the source's, unconditionally: the name parsers start from the --drive default and "
+                   "then assign the drive parsed from the argument, so a member that survives the assignment (an "
+                   "Opus volume letter, say) makes `:0.` select something other than drive 0's default volume",
+                   floor=0 if fixture else 2)
+    for fn in prog.functions.values():
+        if fn.name != "operator=" or len(fn.params) != 1 or fn.body is None:
+            continue
+        cls = notpl(fn.qn.rsplit("::", 1)[0])
+        pt = notpl((fn.params[0].get("t") or "").replace("const ", "").replace("&", "").strip())
+        if pt.split("::")[-1] != cls.split("::")[-1]:
+            continue
+        rec = [rc for q_, rc in prog.records.items() if notpl(q_) == cls]
+        if not rec:
+            continue
+        pd = fn.params[0]["d"]
+
+        def copies(st, fd):
+            """st is `member = src.member` for the field with declaration id fd."""
+            x = strip_all(st)
+            if x is None or x.get("op") != "=" or x.get("k") not in ("BinaryOperator", "CXXOperatorCallExpr"):
+                return False
+            ops = x["c"][-2:]
+            l, rr = strip_all(ops[0]), strip_all(ops[1])
+            if l is None or l.get("k") != "MemberExpr" or l.get("d") != fd:
+                return False
+            lb = strip_all(l["c"][0]) if l.get("c") else None
+            if lb is not None and lb.get("k") != "CXXThisExpr":
+                return False
+            for _ in range(3):
+                if rr is not None and rr.get("k") in ("CXXConstructExpr", "CXXTemporaryObjectExpr") and len(rr.get("c", [])) == 1:
+                    rr = strip_all(rr["c"][0])
+            if rr is None or rr.get("k") != "MemberExpr" or rr.get("d") != fd:
+                return False
+            rb = strip_all(rr["c"][0]) if rr.get("c") else None
+            return rb is not None and rb.get("k") == "DeclRefExpr" and rb.get("d") == pd
+        top = fn.body.get("c", [])
+        plain = all(st.get("k") == "ReturnStmt" or any(copies(st, f_["d"]) for f_ in rec[0]["fields"]) for st in top)
+        for f_ in rec[0]["fields"]:
+            key = "%s::%s::%s" % (fn.relfile(), fn.qn, f_["n"])
+            if any(copies(st, f_["d"]) for st in top):
+                r.add(key, fn.loc(fn.body), True, "copied unconditionally")
+                continue
+            nested = [x for x in fn.walk() if x.get("op") == "=" and x.get("k") in ("BinaryOperator", "CXXOperatorCallExpr")
+                      and (strip_all(x["c"][-2]) or {}).get("d") == f_["d"]]
+            guarded = [x for x in nested if any(a.get("k") == "IfStmt" and "else" not in a.get("parts", {}) for a in fn.ancestors(x))]
+            if guarded:
+                r.add(key, fn.loc(guarded[0]), False, "`%s` is only assigned under a condition: when the condition fails the "
+                      "target keeps its old %s (the --drive default's) instead of taking the source's" % (f_["n"], f_["n"]))
+            elif plain:
+                r.add(key, fn.loc(fn.body), False, "`%s` is not copied by %s: the target keeps its old value" % (f_["n"], fn.qn))
+            else:
+                r.undecided.append("%s: cannot tell whether %s copies `%s` (unrecognised idiom)" % (fn.loc(fn.body), fn.qn, f_["n"]))
+    return r
+
+
 def run(ctx):
     prog = ctx.prog("dfs", "N")
-    return [rule_translation(prog), rule_canonical_patterns(prog), rule_name_comparison(prog)]
+    return [rule_translation(prog), rule_canonical_patterns(prog), rule_name_comparison(prog), rule_selector_assignment(prog)]
 
 
 SELFTESTS = [
     (rule_translation, ["c15_bad.cc"], ["c15_good.cc"], "char 0x5E"),
+    (rule_selector_assignment, ["c15_sel_bad.cc"], ["c15_sel_good.cc"], "subvolume_"),
 ]
